@@ -63,7 +63,7 @@ void module_close_all(void) {}
 struct event *__real_event_new(struct event_base *, evutil_socket_t, short, event_callback_fn, void *);
 void __real_event_free(struct event *);
 #define MAX_TIMERS 65536
-static struct { struct event *ev; int client; int ann; int known; } timers[MAX_TIMERS]; /* in creation order */
+static struct { struct event *ev; int client; int ann; int known; int assigned; } timers[MAX_TIMERS]; /* in creation order */
 static int n_timers;
 static int feeding_known, feeding_client;   /* the `in` op being fed is one line `<id> C ...` */
 
@@ -107,6 +107,7 @@ static void timer_note(struct event *e)
     timers[n_timers].known = feeding_known;
     timers[n_timers].client = feeding_client;
     timers[n_timers].ann = feeding_known ? ann_count(feeding_client) : 0;
+    timers[n_timers].assigned = 0;
     n_timers++;
 }
 static void timer_forget(struct event *e)
@@ -137,6 +138,28 @@ void __wrap_event_free(struct event *e)
 {
     timer_forget(e);
     __real_event_free(e);
+}
+/* a timer kept inside the caller's own structure (event_assign) instead of on the heap (event_new):
+ * it is live from event_assign until event_del, or until the harness has fired it (a one-shot
+ * timer that has run needs no event_del, and its memory may be gone right after the callback) */
+int __real_event_assign(struct event *, struct event_base *, evutil_socket_t, short, event_callback_fn, void *);
+int __wrap_event_assign(struct event *e, struct event_base *b, evutil_socket_t fd, short ev, event_callback_fn cb, void *arg)
+{
+    int rc = __real_event_assign(e, b, fd, ev, cb, arg);
+    if (rc == 0 && fd == -1 && ev == 0) {
+        timer_forget(e);
+        timer_note(e);
+        if (n_timers > 0 && timers[n_timers - 1].ev == e) timers[n_timers - 1].assigned = 1;
+    }
+    return rc;
+}
+int __real_event_del(struct event *);
+int __wrap_event_del(struct event *e)
+{
+    int i;
+    for (i = 0; i < n_timers; i++)
+        if (timers[i].ev == e && timers[i].assigned) { timer_forget(e); break; }
+    return __real_event_del(e);
 }
 /* event_base_once with a pure timeout: the same thing as a self-freeing timer event */
 struct once_rec { struct event *ev; event_callback_fn cb; void *arg; };
@@ -462,7 +485,9 @@ static void run_case(char **lines, int n)
             for (k = n_timers - 1; k >= 0; k--)
                 if (timers[k].known && timers[k].client == want && timer_current(k)
                     && event_pending(timers[k].ev, EV_TIMEOUT, NULL)) {
-                    event_active(timers[k].ev, EV_TIMEOUT, 0);
+                    struct event *te = timers[k].ev;
+                    if (timers[k].assigned) timer_forget(te);
+                    event_active(te, EV_TIMEOUT, 0);
                     event_base_loop(ev_base, EVLOOP_NONBLOCK);
                     fired = 1;
                     break;
@@ -488,6 +513,7 @@ static void run_case(char **lines, int n)
                     fl += (size_t)snprintf(fired + fl, sizeof(fired) - fl, "%s%d", fl ? "," : "", timers[at].client);
                 else
                     fl += (size_t)snprintf(fired + fl, sizeof(fired) - fl, "%sorphan", fl ? "," : "");
+                if (timers[at].assigned) timer_forget(snap[k]);
                 event_active(snap[k], EV_TIMEOUT, 0);
                 event_base_loop(ev_base, EVLOOP_NONBLOCK);
                 if (fl > sizeof(fired) - 32) break;
